@@ -190,9 +190,10 @@ func (db *DB) search(key types.Key) ([]byte, bool) {
 }
 
 // NOTE: call with oracle.writeLock, it makes the caller the only writer of db.memtable
-func (db *DB) rawset(entry types.Entry) {
+func (db *DB) rawset(entries ...types.Entry) {
 	mt := db.memtable
-	mt.set(entry)
+	// the write set of a transaction goes to one memtable and one wal, whole
+	mt.set(entries...)
 
 	if mt.size() >= db.config.MemtableByteThreshold {
 		mt.freeze()
